@@ -17,6 +17,9 @@ PROFILE_BATTERY = [("color", "red"), ("color", "1px"), ("left", "1px"), ("opacit
                    ("color", "rgb(-1, 0, 300)"), ("-x-count", "3")]
 
 
+VALID_SHEET = "a { opacity: 0.5; box-sizing: border-box; color: red; left: 1px; x-y: 1 }"
+
+
 def good_fetcher(url):
     return None, "imported { left: 0 }"
 
@@ -49,6 +52,11 @@ def battery():
     # first: production-parser entry points where any token left over by an earlier call changes the result
     o, r = outcome(lambda: cssutils.css.PropertyValue("1px solid red").cssText)
     out.append(r if o == "ok" else o)
+    # verdicts of the current default profiles, through the registry and through a parse
+    o, r = outcome(lambda: [list(cssutils.profile.validateWithProfile(n, v)) for n, v in PROFILE_BATTERY])
+    out.append(repr(r) if o == "ok" else o)
+    o, r = outcome(lambda: [(p.name, p.valid) for rule in cssutils.parseString(VALID_SHEET) for p in rule.style])
+    out.append(repr(r) if o == "ok" else o)
     for t in REF_SHEETS:
         o, r = outcome(lambda: cssutils.CSSParser(fetcher=good_fetcher).parseString(t).cssText.decode())
         out.append(r if o == "ok" else o)
@@ -68,7 +76,7 @@ def project(ser0):
     return {"mode": bool(cssutils.log.raiseExceptions), "prefs": digest(sorted(vars(cssutils.ser.prefs).items())),
             "profiles": digest([list(prof.profiles), [bool(prof.validate(n, v)) for n, v in PROFILE_BATTERY]]),
             "ser": "original" if cssutils.ser is ser0 else "other",
-            "saved": len(pp.savedTokens), "pushed": len(pp.tokenizer._pushed)}
+            "saved": len(pp.savedTokens), "pushed": len(pp.tokenizer._pushed) if hasattr(pp.tokenizer._pushed, "__len__") else -1}       # -1: an iterator of pushed-back tokens
 
 
 def set_pref(v):
@@ -81,7 +89,8 @@ def set_pref(v):
 
 TEXTS = {"empty": " ", "none": "a { color: red } /* c */ @media print { b { left: 0 } }",
          "malformed": 'a { color: red } @import "late.css"; b { left: 0',
-         "fetcherthrows": '@import "x.css"; a { left: 0 }'}
+         "fetcherthrows": '@import "x.css"; a { left: 0 }',
+         "pushback": "a { left: 0 } @page { @top-left {} }"}
 
 
 def do_parse(parsers, a, tmpdir):
@@ -149,6 +158,16 @@ def apply(world, a):
             cssutils.profile.addProfile("x-counts", {"-x-count": "{int}"}, macros={"int": r"\d+"})
             cssutils.profile.removeProfile("x-counts")
         return outcome(g)[0]
+    if op == "profileswitch":
+        def h():
+            prof = cssutils.profile
+            prof.defaultProfiles = prof.CSS_LEVEL_2
+            try:
+                [prof.validateWithProfile(n, v) for n, v in PROFILE_BATTERY]
+                cssutils.parseString(VALID_SHEET)
+            finally:
+                prof.defaultProfiles = None
+        return outcome(h)[0]
     if op == "serialize":
         return outcome(lambda: cssutils.parseString(REF_SHEETS[1]).cssText)[0]
     if op == "combine":
